@@ -338,6 +338,9 @@ func runTrace(fs *flag.FlagSet, prop string, seed uint64, n int, outDir, file st
 			if os.Getenv("VH_DEEP") != "" && (len(c.Edges) > 16 || (c.P4 == "ns" && len(c.Edges) > 7)) {
 				continue // the deep check evaluates the whole heuristic in the kernel: keep the instances small
 			}
+			if len(c.Edges) > 48 {
+				continue // the kernel re-computes every step: large instances belong to the search, not to the trace
+			}
 			c.Name = fmt.Sprintf("%s-t%d-%d", prop, seed, i)
 			if seen[c.Key()] {
 				continue
